@@ -414,7 +414,7 @@ def pool_map(run: Run, modname, funcname, args, procs=None, hooks=False, timeout
     import concurrent.futures as cf
     import multiprocessing as mp
 
-    procs = min(procs or (os.cpu_count() or 4), len(args), 16) or 1
+    procs = min(procs or int(os.environ.get("VERIF_PROCS") or os.cpu_count() or 4), len(args), 16) or 1
     out = []
     ctx = mp.get_context("spawn")
     with cf.ProcessPoolExecutor(max_workers=procs, mp_context=ctx) as ex:
